@@ -167,6 +167,9 @@ def op_sequence(ctx, g: Gen, t, length):
         forced_cross = op == "add_cross_basis_after"
         if forced_cross:
             op = "add"
+        if len(t) > 300:      # keep chains small: sizes can grow geometrically under + / fills / right triangles
+            break
+        before = strict_seq(t)
         try:
             if op == "filter":
                 k = r.randint(0, 3)
@@ -242,7 +245,18 @@ def op_sequence(ctx, g: Gen, t, length):
                 ev = max(t.evaluation_dates) if len(t) else datetime.date(2020, 1, 31)
                 from bermuda.date_utils import add_months
 
-                t2 = t.make_right_diagonal([add_months(ev, 3)])
+                dates = [add_months(ev, 3)]
+                if r.random() < 0.5 and len(t):
+                    dates = sorted(set(dates + r.sample(t.evaluation_dates, min(2, len(t.evaluation_dates)))))
+                u = r.random()
+                if u < 0.4:
+                    t2 = t.make_right_diagonal(dates)
+                elif u < 0.7:
+                    t2 = t.make_right_diagonal(dates, include_historic=True)
+                else:
+                    from bermuda.utils import make_right_diagonal as mrd
+
+                    t2 = mrd(t, dates, include_historic=r.random() < 0.5)
             elif op == "split":
                 parts = list(t.split(["lob"]).values()) if len(t) else []
                 t2 = r.choice(parts) if parts else t
@@ -293,6 +307,10 @@ def op_sequence(ctx, g: Gen, t, length):
             continue
         if not hasattr(t2, "cells"):
             return trace + [op], (op, [f"operation returned {type(t2).__name__}, not a Triangle"], t)
+        # the triangle the operation was applied to is still the same canonical triangle
+        if strict_seq(t) != before:
+            return trace + [op], (op, ["the operand triangle is no longer the triangle it was (cells changed in place): "
+                                        + "; ".join(canonical_violations(t) or ["still sorted, but contents differ"])], t)
         trace.append(op)
         ctx.hist(f"op:{op}")
         probs = canonical_violations(t2)
@@ -364,6 +382,22 @@ def run(ctx):
                 pass
         if len(fails) > 5:
             break
+    # multisets with exact duplicates: every supplied cell is kept (a Triangle is built from a multiset)
+    for i in range(40 if ctx.quick else 400):
+        cells, info = g.cells(n_periods=g.r.randint(1, 3), n_lags=g.r.randint(1, 3), values=g.r.choice(["int", "float"]))
+        if not cells:
+            continue
+        dup = cells + [g.r.choice(cells) for _ in range(g.r.randint(1, 3))]
+        g.r.shuffle(dup)
+        try:
+            t = Triangle(dup)
+        except Exception as ex:  # noqa: BLE001
+            fails.append(("constructor-raised", repr(ex), dup, None, "list"))
+            continue
+        ctx.count(evaluations=1, traces=1)
+        ctx.hist("multiset:with-exact-duplicates")
+        if len(t) != len(dup) or sorted(map(repr, strict_seq(t))) != sorted(repr(ct.canon_cell(c, ordered=True)) for c in dup):
+            fails.append(("cells-lost-or-invented", f"{len(dup)} cells supplied (with exact duplicates), {len(t)} kept", dup, None, "list"))
     for s in cases[:2]:
         ctx.sample({"info": s[2], "cells_coq": s[0][:600]})
     # metadata order axioms on the implementation
@@ -488,6 +522,11 @@ def run(ctx):
 def replay(ctx, data):
     from bermuda import Triangle
 
+    if data.get("kind") == "cells-lost-or-invented":
+        a = [ct.cell_from_obj(o) for o in data["cells"]]
+        t1 = Triangle(list(a))
+        print(f"{len(a)} cells supplied, {len(t1)} kept")
+        return 1 if len(t1) != len(a) else 0
     if data.get("kind") in ("order-depends-on-input", "not-canonical", "constructor-raised"):
         a = [ct.cell_from_obj(o) for o in data["cells"]]
         it = data.get("iterable", "list")
